@@ -43,12 +43,12 @@ SLOTS = {
 }
 # ---- base programs: {slot} marks a keyword / phrase; everything else is literal text.  A '~' glues the next item to the previous one.
 BASE = {
- 'assignments': ['{put} 5 {into} X', '{let} Y {be} X {plus} 1', '{let} X {be} {times} 2', '{put} X {minus} 1 {into} my heart', '{let} X {at} 0 {be} Y', '{put} 1 {into} X {at} Y {at} 2', 'X {is} 5', 'Tommy {says} hello world', 'X {is} {null}', 'Y {is} {true}', 'Doctor Who {is} {false}', 'Z {is} {empty}', 'W {is} {mysterious}'],
+ 'assignments': ['{put} 5 {into} X', '{let} Y {be} X {plus} 1', '{let} X {be} {times} 2', '{put} X {minus} 1 {into} my heart', '{let} X {at} 0 {be} Y', '{put} 1 {into} X {at} Y {at} 2', 'X {is} 5', 'X {is} a 57 true 43', 'Tommy {says} hello world', 'X {is} {null}', 'Y {is} {true}', 'Doctor Who {is} {false}', 'Z {is} {empty}', 'W {is} {mysterious}'],
  'output-input': ['{say} X', '{say} X {plus} Y {times} 2', '{listen}', '{listen} {to} X', '{listen} {to} X {at} 1', '{say} {it}'],
  'conditionals': ['{if} X {gt} Y', '{say} 1', '{else}', '{say} 2', '', '{if} X {isnot} 3 {and} Y {le} 2', '{say} 3', '', '{say} 4'],
  'loops': ['{while} X {lt} 10', '{build} X {up}', '{if} X {is} 5', '{break}', '', '{if} X {ge} 7', '{continue}', '', '', '{until} Y {is} {null} {or} {not} Y', '{knock} Y {down} , {down}', '', '{say} X'],
  'mutations': ['{cut} X', '{cut} X {into} Y', '{cut} X {into} Y {with} ","', '{join} Y {with} "-"', '{cast} X', '{cast} "65" {into} Z {with} 16', '{turn} {up} X', '{turn} X {down}', '{turn} {round} X', '{turn} {it} {round}'],
- 'arrays': ['{rock} X', '{rock} X {with} 1 {lsep} 2 {lsep} 3', '{rock} X {like} a rolling stone', '{roll} X', '{roll} X {into} Y', '{say} {roll} X', '{let} Y {be} {roll} X', '{say} X {at} 0 {plus} X {at} "k"'],
+ 'arrays': ['{rock} X', '{rock} X {with} 1 {lsep} 2 {lsep} 3', '{rock} X {like} a rolling stone', '{rock} X {like} a formula-1 racer', '{roll} X', '{roll} X {into} Y', '{say} {roll} X', '{let} Y {be} {roll} X', '{say} X {at} 0 {plus} X {at} "k"'],
  'functions': ['Midnight {takes} Hate {sep} Desire', '{say} Hate', '{return} Hate {plus} Desire', '', 'Echo {takes} X', '{return} X {retback}', '', '{say} Midnight {taking} 1 {sep} 2', 'Midnight {taking} X {sep} Y', '{put} Echo {taking} Midnight {taking} 1 {sep} 2 {into} Z'],
  'lists': ['{say} 1 {plus} 2 {lsep} 3 {lsep} 4', '{let} X {be} {minus} 1 {lsep} 2', '{say} X {times} 2 {lsep} 3 {plus} 4', '{say} X {and} Y {lsep} Z'],
  'names': ['{put} 1 {into} my heart', '{put} my heart {into} Your Soul', '{say} Doctor Feelgood {plus} the night', '{build} my heart {up}', '{knock} Doctor Feelgood {down}', '{let} Doctor Bad Wolf {be} the night {times} my heart'],
@@ -72,7 +72,7 @@ BOUNDS = {'metamorphic': '%d base programs (all 18 statement kinds, every expres
           'precedence': 'X op1 Y op2 Z for all 13 x 13 ordered operator pairs (worded and symbolic spellings), plus unary / list / subscript / call variants, against a reference precedence-climbing parser',
           'blocks': 'every control-flow shape of <= 2 (thorough 3) statements incl. break / continue / until (mirsym/progen.py) and every structure-only shape (say / if / if-else / while, nesting <= 3, blocks <= 3 statements) of <= 4 (thorough 5) statements, parsed by the VM-executed parser: statement kinds and block nesting of the parsed tree equal the shape; structure-only shapes of 5 (thorough 6) statements additionally with the natively run parser (plain exhaustive enumeration, listed separately in the evidence)',
           'literals': 'number literals: all texts d, d.d, .d, dd, d.dd, dd.d over digits {0,1,5,9} -> Python float; string literals of 0..=2 symbolic characters (any code point of ASCII ∪ R except the quote) -> exactly those characters'}
-OUTSIDE = ['a CR before the LF that ends a poetic string literal (kept in the literal by the implementation; C11 says `exact text up to the end of the line`)', 'chains mixing a worded `is` comparison with a symbolic comparison operator (the ladder of the statement does not settle them)', 'poetic literals (C11)', 'identifier case (C15)', 'programs longer than the base programs']
+OUTSIDE = ['a CR before the LF that ends a poetic string literal (kept in the literal by the implementation; C11 says `exact text up to the end of the line`)', 'chains mixing a worded `is` comparison with a symbolic comparison operator (the ladder of the statement does not settle them)', 'poetic literals beyond two base lines with digit-run chunks (C11)', 'identifier case (C15)', 'programs longer than the base programs']
 ASSUMPTIONS = ['char predicates / case mapping exact on ASCII, table from the real std for R', 'str / CharIndices / Option / Vec / itertools models (DESIGN.md §2.4)', 'the spelling table SLOTS of this file is the reference for aliases and phrases']
 RULE = 'state = feasible path end of parse() on one spelling; symbolic noise characters / string-literal characters make the lexer fork under the solver; trees are compared structurally with positions erased'
 ERASE = ('SourceRange', 'SourceLocation')
@@ -145,7 +145,12 @@ def judge_same(vm, mir, base_text, text, describe, role):
     """parse `text` (BStr, possibly with symbolic characters) on this path and compare with the base tree"""
     vm.describe = describe
     sub, t0 = vm_parse(mir, base_text)
-    if t0 is None: raise Unmodelled(f'base program does not parse: {base_text!r}')
+    if t0 is None:
+        # the base programs are valid Rockstar (the per-run validation compares their parse with the native build; on the unchanged
+        # tree they are all accepted): a rejected canonical spelling is itself a violation
+        vm.witness = {'judged'}
+        m = model_of(vm)
+        return [finding('violation', 'base:rejected', 'the canonical spelling of a valid program is rejected', {'text': base_text}, vm.notes)] if m is not None else []
     r = conc(vm, parse_in_vm(vm, mir, text))
     out = []
     def bad(rl, detail):
@@ -478,6 +483,7 @@ def skeleton_of_shape(b):
         elif k == 'break': out.append('Break')
         elif k == 'continue': out.append('Continue')
         elif k == 'if': out.append(('If', skeleton_of_shape(s[1]), None if s[2] is None else skeleton_of_shape(s[2])))
+        elif k == 'fn': out.append(('Function', skeleton_of_shape(s[1]) + ['Return']))
         else: out += ['PoeticAssignment', ('While' if k == 'while' else 'Until', ['Inc'] + skeleton_of_shape(s[1]))]
     return out
 
@@ -501,6 +507,7 @@ def h_blocks(vm, mir, shapes):
                 eb = sg.d(sg.f(a, 'else_block'))
                 o.append(('If', skel(sg.block(sg.f(a, 'then_block'))), None if eb.variant == 0 else skel(sg.block(eb.fields[0]))))
             elif k in ('While', 'Until'): o.append((k, skel(sg.block(sg.f(a, 'block')))))
+            elif k == 'Function': o.append((k, skel(sg.block(sg.f(sg.f(a, 'data'), 'body')))))
             else: o.append(k)
         return o
     got = skel(sg.statements(r.fields[0])); want = skeleton_of_shape(shape) + ['Output']
@@ -555,6 +562,23 @@ def structure_shapes(lo, hi):
     return out
 
 
+def function_shapes(lo, hi):
+    """every structure shape of size lo..=hi as the body of a function, followed by a return, the blank line that ends the body and
+    more top-level code.  Shapes with an if-else directly in the body are left out: in this grammar that position ends the body."""
+    from .. import progen
+    out = []
+    for n in range(lo, hi + 1):
+        for b in _bl(n, 3):
+            if any(st[0] == 'if' and st[2] is not None for st in b): continue
+            r = progen._R()
+            r.lines.append('Fn takes P')
+            try: r.block(b, None)
+            except OverflowError: continue
+            r.lines += ['give back P', '', r.marker()]
+            out.append(('\n'.join(r.lines) + '\n', (('fn', b),)))
+    return out
+
+
 def native_structure_check(ctx, lo, hi):
     """the same skeleton check on larger shapes with the real parser run natively (tree rebuilt by mirsym/astparse.py): exhaustive
     enumeration of concrete runs, reported separately from the solver-decided / VM-executed parts"""
@@ -570,6 +594,7 @@ def native_structure_check(ctx, lo, hi):
                 eb = sg.d(sg.f(a, 'else_block'))
                 o.append(('If', skel(sg.block(sg.f(a, 'then_block'))), None if eb.variant == 0 else skel(sg.block(eb.fields[0]))))
             elif k in ('While', 'Until'): o.append((k, skel(sg.block(sg.f(a, 'block')))))
+            elif k == 'Function': o.append((k, skel(sg.block(sg.f(sg.f(a, 'data'), 'body')))))
             else: o.append(k)
         return o
     for text, shape in structure_shapes(lo, hi):
@@ -670,6 +695,8 @@ def jobs(ctx, tier):
         js.append(Job(f'blocks/{k}', h_blocks, (mir, ch), witness=['judged'], str_mode='bounded', fuel=30_000_000, weight=10))
     for k, ch in enumerate(chunks(structure_shapes(1, 4 if q else 5), 12)):
         js.append(Job(f'structure/{k}', h_blocks, (mir, ch), witness=['judged'], str_mode='bounded', fuel=30_000_000, weight=12))
+    for k, ch in enumerate(chunks(function_shapes(1, 4 if q else 5), 12)):
+        js.append(Job(f'structure-in-function/{k}', h_blocks, (mir, ch), witness=['judged'], str_mode='bounded', fuel=30_000_000, weight=12))
     for k, ch in enumerate(chunks(number_texts(), 8)):
         js.append(Job(f'numbers/{k}', h_number, (mir, ch), witness=['judged'], str_mode='bounded', fuel=30_000_000, weight=5))
     for n in range(0, 3):
